@@ -50,8 +50,10 @@ def norm_line(l):
 # template parsing
 
 
-def parse_template(path):
-    """Return list of segments: ('raw', [lines]) | ('item', attrs, [(kind,line)]) where kind in 'b','a'."""
+def parse_template(path, contract_only=None):
+    """Return list of segments: ('raw', [lines]) | ('item', attrs, [(kind,line)]) where kind in 'b','a'.
+    contract_only: name of the unit in which the items of this file are proved (they are then included
+    here with their contracts only, bodies ignored)."""
     segs = []
     cur = ("raw", [])
     item = None
@@ -60,7 +62,14 @@ def parse_template(path):
         if s.startswith("//#include ") and item is None:
             segs.append(cur)
             inc = os.path.join(os.path.dirname(path), s[len("//#include "):].strip())
-            segs.extend(parse_template(inc))
+            segs.extend(parse_template(inc, contract_only=contract_only))
+            cur = ("raw", [])
+            continue
+        if s.startswith("//#use-contract ") and item is None:
+            # //#use-contract <unit> <relative path>: callee contracts proved in another unit of the same property
+            segs.append(cur)
+            _, unit_name, rel = s.split(None, 2)
+            segs.extend(parse_template(os.path.join(os.path.dirname(path), rel.strip()), contract_only=unit_name))
             cur = ("raw", [])
             continue
         if s.startswith("//#item"):
@@ -71,6 +80,8 @@ def parse_template(path):
             for part in shlex.split(s[len("//#item"):]):
                 k, _, v = part.partition("=")
                 attrs[k] = v
+            if contract_only:
+                attrs["contract_only"] = contract_only
             item = ("item", attrs, [])
             continue
         if s.startswith("//#end"):
@@ -114,6 +125,10 @@ def normalise_item(attrs, raw_text):
     elif kind == "const":
         text = X.drop_attrs_and_docs(raw_text, log=log)
         loops = 0
+    elif kind == "region":
+        text = X.drop_attrs_and_docs(raw_text, log=log)
+        text, loops = X.normalise_region(text, log=log)
+        log.append({"rule": "R1", "note": "statement region of %s wrapped in a synthetic fn by add-only annotation lines; free variables become parameters, mutated ones are returned" % attrs.get("in")})
     else:
         raise Undecided("template-error", "unknown kind " + kind)
     return text, log, loops
@@ -270,7 +285,10 @@ def generate(unit_dir, canary=False):
         path = os.path.join(REPO, relfile)
         item_id = (attrs.get("impl", "").split()[-1] + "::" if attrs.get("impl") else "") + attrs["name"]
         try:
-            ex = X.extract(path, attrs["kind"], attrs["name"], attrs.get("impl"))
+            if attrs["kind"] == "region":
+                ex = X.extract_region(path, attrs["in"], attrs.get("impl"), attrs["from"], attrs["to"], int(attrs.get("from_nth", 0)), int(attrs.get("to_nth", 0)))
+            else:
+                ex = X.extract(path, attrs["kind"], attrs["name"], attrs.get("impl"))
         except (X.ExtractError, FileNotFoundError, ValueError) as e:
             raise Undecided("lost-anchor", "%s: %s" % (item_id, e))
         try:
@@ -290,7 +308,17 @@ def generate(unit_dir, canary=False):
         has_requires = any(a and re.match(r"\s*requires\b", t) for a, t, _ in placed)
         out_lines.append("//#item-begin %s" % item_id)
         line_info.append((None, True, None, None))
+        if attrs.get("contract_only") and attrs["kind"] == "fn":
+            out_lines.append("#[verifier::external_body] // contract only: proved in unit %s" % attrs["contract_only"] + TAG)
+            line_info.append((item_id, True, relfile, None))
+            has_requires = False  # no canary for a body that is not verified here
         first_body_brace_done = False
+        if attrs.get("contract_only") and attrs["kind"] == "fn":
+            # modular use: signature + requires/ensures only; the body is proved in the home unit
+            cut = next((k for k, (is_a, t, _) in enumerate(placed) if not is_a and t.strip() == "{"), None)
+            if cut is None:
+                raise Undecided("normalise-failed", "%s: no body brace" % item_id)
+            placed = placed[:cut] + [(True, "{ unimplemented!() }", None)]
         for is_a, t, cj in placed:
             if is_a:
                 out_lines.append(t + TAG)
@@ -311,6 +339,7 @@ def generate(unit_dir, canary=False):
             "sha256_normalised": sha("\n".join(norm_line(l) for l in cur_lines)),
             "changed_vs_baseline": changed, "rules_applied": log, "loops": loops, "raw_text": ex["text"],
             "has_requires": has_requires, "baseline_text": base_text, "current_text": "\n".join(cur_lines),
+            "contract_only": attrs.get("contract_only"),
         })
     return {"text": "\n".join(out_lines) + "\n", "items": items, "line_info": line_info}
 
@@ -331,6 +360,8 @@ def identity_check(gen):
             bodies[cur].append(l)
     problems = []
     for it in gen["items"]:
+        if it.get("contract_only") and it["kind"] == "fn":
+            continue  # body not present here; identity is checked in the unit that proves it
         got = INLINE_GEN_RE.sub("", "\n".join(bodies.get(it["id"], [])))
         toks = strip_attributes(code_tokens(got))
         back = X.denormalise_tokens(toks)
@@ -484,6 +515,8 @@ def map_error_to_obligation(err, obs, fns):
 def scan_assumptions(text):
     found = []
     for ln, l in enumerate(text.split("\n"), 1):
+        if "// contract only: proved in unit" in l:
+            continue
         code = l.split("//")[0]
         for pat, name in ((r"\bassume\s*\(", "assume"), (r"\badmit\s*\(", "admit"), (r"external_body", "external_body"),
                           (r"\bassume_specification\b", "assume_specification"), (r"\baxiom\s+fn\b", "axiom"), (r"#\[verifier::external", "verifier::external"),
